@@ -69,3 +69,33 @@ async fn when_async_arg(_: &mut W, n: i32) -> Result<(), String> {
     let _ = n;
     Ok(())
 }
+
+// ---- Cucumber Expressions and a custom Parameter with several capturing groups (C19)
+
+/// Ordinal number: both groups take part in every match; `FromStr` is to see the first non-empty one.
+#[derive(Clone, Copy, Debug, cucumber::Parameter, PartialEq)]
+#[param(name = "ordinal", regex = r"(\d+)(st|nd|rd|th)")]
+pub struct Ordinal(pub u32);
+
+impl std::str::FromStr for Ordinal {
+    type Err = std::num::ParseIntError;
+
+    fn from_str(s: &str) -> Result<Self, Self::Err> {
+        s.parse().map(Self)
+    }
+}
+
+#[given(expr = "pick the {ordinal} of {int} from {word}")]
+fn expr_custom(_: &mut W, which: Ordinal, total: u32, shelf: String) {
+    let _ = (which, total, shelf);
+}
+
+#[when(regex = r"^all of (\d+) (\d+) (\d+)$")]
+fn slice_args(_: &mut W, all: &[u64]) {
+    let _ = all;
+}
+
+// ---- several attributes on one function: one registration per attribute, each under its own keyword
+#[given("twice")]
+#[when("twice again")]
+fn twice(_: &mut W) {}
